@@ -12,11 +12,11 @@ PROPS["C06"] = {
     "outside": ["rejected transaction operations, load_incremental of bad bytes, actor-table bookkeeping: document operations"],
 }
 PROPS["C12"] = {
-    "decided": "the framing that makes concatenation work: Input::split + reset hands the next chunk exactly the remaining bytes; a chunk header is self-delimiting (parse(write(h) ++ data ++ rest) leaves exactly rest)",
+    "decided": "the framing that makes concatenation work: Input::split + reset hands the next chunk exactly the remaining bytes; a chunk header is self-delimiting (parse(write(h) ++ data ++ rest) leaves exactly rest); Header::new announces exactly the bytes Header::write emits for ANY data length up to 4 MiB (the offsets Document::new / Chunk::parse derive from it)",
     "outside": ["save_after, change bodies, apply_changes (document operations)"],
 }
 PROPS["C13"] = {
-    "decided": "for every accepted chunk header every strict prefix of the chunk is rejected as incomplete (never parsed as a shorter valid chunk, never a panic); the Input combinators never read outside the buffer",
+    "decided": "for every accepted chunk header every strict prefix of the chunk is rejected as incomplete (never parsed as a shorter valid chunk, never a panic); the Input combinators never read outside the buffer; the header length a writer announces for ANY data length up to 4 MiB is the length actually written, so a chunk boundary computed by the writer is one the reader accepts",
     "outside": ["which document results from a partial load (needs load)", "OnPartialLoad handling in load_with_options"],
 }
 PROPS["C14"] = {
@@ -35,14 +35,14 @@ PROPS["C17"] = {
     "outside": ["ChangeCollector::try_new's guard and document loading", "memory consumed by decoded documents"],
 }
 PROPS["C18"] = {
-    "decided": "leaf encodings round-trip: LEB128 (all u64/i64) against the writer the repository uses, ulebsize/lebsize, chunk header write/parse",
+    "decided": "leaf encodings round-trip: LEB128 (all u64/i64) against the writer the repository uses, ulebsize/lebsize, chunk header write/parse, header length = bytes written for ANY data length up to 4 MiB",
     "outside": ["Change::try_from(&[u8]), From<ExpandedChange>, bundles, DEFLATE (Change::parse is behind a Kani internal compiler error)"],
 }
 PROPS["C19"]["decided"] = ("sync state (State::encode -> State::decode, 0 or 1 shared heads of any value), sync message flags and the Bloom filter "
                            "wire form decode back to equal values; id arithmetic is invariant under actor renumbering (a renumbered id names the same actor bytes); "
                            "ExId::to_bytes and Cursor::to_bytes write exactly the documented framing (actor lengths on both sides of the 1/2-byte length prefix, counter/hint < 2^14); "
                            "Display of a cursor keeps the '-' of MoveCursor::Before; exid_to_opid resolves an id through the hint or, when the hint is stale or out of range, "
-                           "through the actor lookup to the same actor, for ANY counter and hint")
+                           "through the actor lookup to the same actor, for ANY counter and hint; two ids are == exactly when counter and actor agree (the replica-local hint takes no part in ==, Ord)")
 PROPS["C19"]["outside"] = ["the DEcoders ExId::try_from(&[u8]) / Cursor::try_from(&[u8]) (see C15) and therefore byte round trips as a whole; actor CONTENT beyond first/last byte",
                            "Message::encode / decode as a whole", "exid_to_opid / cursor resolution against a live document"]
 PROPS["C21"] = {
@@ -71,7 +71,7 @@ PROPS["C37"] = {
 }
 PROPS["C30"]["decided"] = ("with_new_actor keeps every id pointing at the same actor bytes after any insertion into the sorted actor table (root is a fixed point); "
                            "exid_to_opid on a real document resolves an id to ITS actor's index whatever the hint says (stale, out of range) and rejects an id whose actor the replica "
-                           "does not know - never another actor's object - and a counter that cannot name an op; ExId::to_bytes framing")
+                           "does not know - never another actor's object - and a counter that cannot name an op; ExId::to_bytes framing; id equality / order ignore the replica-local hint")
 PROPS["C30"]["outside"] = ["get_obj_meta and everything after the id is resolved", "Automerge::insert_actor rewriting the columns", "ExId::try_from(&[u8])"]
 PROPS["C38"] = {
     "decided": "ChangeBatch::push rejects a second change with the same (actor, seq) and a different hash in every arrival order and accepts the same hash again as a no-op; has_actor_seq reflects exactly the queued pairs",
